@@ -5,7 +5,7 @@
 From Coq Require Import ZArith QArith List Bool Arith Lia.
 From PV Require C12.Model.
 From PV Require Import C09.Model C09.Spec C14.Model C14.Spec C14.Proofs1 C14.Proofs2 C14.Proofs3 C14.Proofs4
-                       C14.Proofs5 C14.Proofs6 C14.Proofs7 C14.Proofs8 C14.Proofs9.
+                       C14.Proofs5 C14.Proofs6 C14.Proofs7 C14.Proofs8 C14.Proofs9 C14.Proofs10.
 Import ListNotations.
 Open Scope Z_scope.
 
@@ -205,6 +205,47 @@ Theorem C14_channels_checker_sound : forall pos probes nc ncw p row,
 Proof. exact listed_b_sound. Qed.
 Print Assumptions C14_channels_checker_sound.
 
+(* ---- stage 3 ---- *)
+
+(* Totality / error exits.  The exporter model fails (None = an assert of alf.py or a NumPy shape / index error)
+   EXACTLY outside the guards: wf_alf (alf.py's two asserts n_templates == model.n_templates and n_clusters ==
+   model.n_clusters, one probe id / map entry / (x, y) position per channel, spike_clusters in range(n_clusters),
+   nan_idx in range), C09's wf_amp for get_amplitudes_true on the template side and on the cluster side, and C09's
+   wf_depth for get_depths.  For every argsort whatsoever (no contract needed), every factor and rate (NaN included),
+   every size -- the batch loop of get_depths (50 000 spikes per batch) ends for every number of spikes. *)
+Theorem C14_export_total : forall argsort x f r,
+  (exists y, export argsort x f r = Some y) <->
+  wf_alf x && wf_amp (t_amp_in x) && wf_amp (c_amp_in x) && wf_depth (x_depth_in x) = true.
+Proof. intros argsort x f r. unfold export. apply export_with_total. Qed.
+Print Assumptions C14_export_total.
+
+(* ... and the same for whatever channel rows are given (the term Corr.v evaluates on the observed rows) *)
+Theorem C14_export_with_total : forall tinds cinds x f r,
+  (exists y, export_with tinds cinds x f r = Some y) <->
+  wf_alf x && wf_amp (t_amp_in x) && wf_amp (c_amp_in x) && wf_depth (x_depth_in x) = true.
+Proof. exact export_with_total. Qed.
+Print Assumptions C14_export_with_total.
+
+(* Per-spike files of a periodic dataset (what Corr.v's InAlfBig relies on for datasets of more than 50 000 spikes).
+   [tile d l n] = l repeated up to n entries.  If spike j of an n-spike dataset has the feature row and the template of
+   spike j mod k of a k-spike dataset i (same feature channels, same positions), get_depths returns the result of i
+   repeated -- for EVERY batch size, so in particular across the 50 000-spike batch boundaries of the real code. *)
+Theorem C14_depths_periodic : forall (i : depth_in) (data : list mat) (cols : mat) (nbatch : Z) (out : list QN) (n : nat),
+  wf_depth i = true -> di_feat i = Some (data, cols) -> length data = Z.to_nat (di_nspikes i) -> (1 <= length data)%nat ->
+  1 <= nbatch -> get_depths_Q nbatch i = Some (Some out) ->
+  get_depths_Q nbatch (tile_depth_in i data cols n) = Some (Some (tile None out n)).
+Proof. intros i data cols nbatch out n Hwf Hf Hl Hk. exact (depths_periodic i data cols Hwf Hf Hl Hk nbatch out n). Qed.
+Print Assumptions C14_depths_periodic.
+
+(* ... and the scaled spike amplitudes (templates_amps_au[spike_templates] * amplitudes, before the unit factor) of the
+   periodic assignment are the period's, repeated *)
+Theorem C14_spike_amps_periodic : forall (ai : amp_in) (n : nat),
+  length (ai_amps ai) = length (ai_spikes ai) -> (1 <= length (ai_spikes ai))%nat ->
+  spike_amps_Z (mk_amp_in (ai_data ai) (ai_wmi ai) (tile 0 (ai_spikes ai) n) (tile 0 (ai_amps ai) n) (ai_nwav ai))
+  = tile 0 (spike_amps_Z ai) n.
+Proof. exact spike_amps_periodic. Qed.
+Print Assumptions C14_spike_amps_periodic.
+
 (* ---- non-vacuity: concrete, non-trivial instances ---- *)
 Definition qred (x : QN) : QN := match x with Some q => Some (Qred q) | None => None end.
 (* 3 templates x 2 samples x 4 channels; channels 0,1,2 form a column on probe 0 (channel 1 in the middle: a
@@ -269,3 +310,24 @@ Example C14_ex_checker :       (* tie between channels 0 and 2: either order pas
   listed_b (x_pos ex_x) (x_probes ex_x) 4 4 1 [0; 1; 2; 3] = false /\
   listed_b (x_pos ex_x) (x_probes ex_x) 4 4 3 [3; 2; 0; 1] = true.
 Proof. vm_compute. repeat split. Qed.
+
+(* stage 3: the guards hold on ex_x (the exporter returns); with n_templates = 4 for 3 stored templates alf.py's assert fires *)
+Definition ex_bad : alf_in :=
+  mk_alf_in (x_tdata ex_x) (x_cdata ex_x) (x_wmi ex_x) (x_st ex_x) (x_sc ex_x) (x_amps ex_x) 4 (x_ncl ex_x)
+            (x_probes ex_x) (x_pos ex_x) (x_cmap ex_x) (x_feat ex_x) (x_nspikes ex_x) (x_nclosest ex_x).
+Example C14_ex_total :
+  wf_alf ex_x && wf_amp (t_amp_in ex_x) && wf_amp (c_amp_in ex_x) && wf_depth (x_depth_in ex_x) = true /\
+  wf_alf ex_bad = false /\ export isort_arg ex_bad (Some 1%Q) (Some 1%Q) = None.
+Proof. vm_compute. repeat split. Qed.
+(* a period of 3 spikes (spike 1 has no positive feature: NaN), repeated to 7 spikes, batch size 2: the batches cut the
+   periods at every position *)
+Definition ex_per : depth_in :=
+  mk_depth_in 3 (Some ([ [[2; 9]; [-1; 9]; [2; 9]]; [[0; 1]; [-3; 1]; [-4; 1]]; [[1; 0]; [1; 0]; [0; 0]] ],
+                       [[0; 1; 2]; [2; 1; 0]])) [0; 1; 0] [[0; 10]; [0; 20]; [0; 30]].
+Example C14_ex_periodic :
+  option_map (option_map (map qred)) (get_depths_Q 2 ex_per) = Some (Some [Some 20; None; Some 15]%Q) /\
+  option_map (option_map (map qred))
+    (get_depths_Q 2 (tile_depth_in ex_per [ [[2; 9]; [-1; 9]; [2; 9]]; [[0; 1]; [-3; 1]; [-4; 1]]; [[1; 0]; [1; 0]; [0; 0]] ]
+                                   [[0; 1; 2]; [2; 1; 0]] 7)) =
+  Some (Some [Some 20; None; Some 15; Some 20; None; Some 15; Some 20]%Q).
+Proof. vm_compute. split; reflexivity. Qed.
